@@ -44,8 +44,11 @@ PLAIN = {"numeric", "array", "loop"}
 # --------------------------------------------------------------------------------------------- comparison
 
 def canon(v, loop_vars=()):
+    if hasattr(v, "free_symbols") and not v.free_symbols:
+        import strawberryfields.parameters as sfpar
+        v = sfpar.par_evaluate(v)        # a constant symbolic expression is the number it denotes
     try:
-        return ioir.val_json(v, loop_vars=loop_vars)
+        return ioir.strip_val(ioir.val_json(v, loop_vars=loop_vars))
     except ioir.Unrep:
         return {"repr": [type(v).__name__, repr(v)]}
 
@@ -102,7 +105,7 @@ def diff_programs(p, p2, ir, spec):
         for j, (a, b) in enumerate(zip(f1["pars"], f2["pars"])):
             if a != b:
                 spars = sop.get("pars", [])
-                cause = ioir.par_kind(spars[j]) if j < len(spars) else "default"
+                cause = ioir.par_kind(spars[j]) if j < len(spars) else ("string" if "str" in a else "default")
                 if sop.get("dagger") and j == 0 and cause == "loop":
                     cause = "loopexpr"          # the negated loop variable is an expression
                 how = "value-changed" if kind_of_value(a) == kind_of_value(b) else "reloads-as-" + kind_of_value(b)
@@ -118,6 +121,11 @@ def diff_programs(p, p2, ir, spec):
     if ir != "gencode" and p.backend_options.get("cutoff_dim") != p2.backend_options.get("cutoff_dim"):
         out.append((f"{tag}:option:cutoff_dim{notarget}",
                     f"cutoff_dim {p.backend_options.get('cutoff_dim')} became {p2.backend_options.get('cutoff_dim')}"))
+    if ir != "gencode":
+        other = lambda q: ({k: v for k, v in q.run_options.items() if k != "shots"},
+                           {k: v for k, v in q.backend_options.items() if k != "cutoff_dim"})
+        if other(p) != other(p2):
+            out.append((f"{tag}:option:other{notarget}", f"run/backend options {other(p)} became {other(p2)}"))
     if p.name is not None and ir != "gencode" and str(p.name) != str(p2.name):
         out.append((f"{tag}:name", f"name {p.name!r} became {p2.name!r}"))
     used = max(max(r.ind for r in c.reg) for c in p.circuit) + 1
@@ -170,7 +178,7 @@ def roundtrip(sf, p, ir, via):
 def single_op_specs(spec):
     """for culprit search: each op alone (with the measurements it depends on before it)"""
     for j, op in enumerate(spec["ops"]):
-        deps = {p["m"] for p in op.get("pars", []) if isinstance(p, dict) and "m" in p}
+        deps = {p[key] for p in op.get("pars", []) if isinstance(p, dict) for key in ("m", "m2") if key in p}
         pre = [dict(cls="MeasureHomodyne", regs=[m], pars=[0.0]) for m in sorted(deps)]
         yield op, dict(spec, ops=pre + [copy.deepcopy(op)])
 
@@ -227,20 +235,39 @@ def states_differ(sf, s1, s2):
 def snapshot(p):
     from strawberryfields.tdm import TDMProgram
     lv = list(p.loop_vars) if isinstance(p, TDMProgram) else []
-    return [cmd_fields(c, lv, False) for c in p.circuit], p.target, dict(p.run_options), dict(p.backend_options)
+    held = [[ioir.current_value(x) if hasattr(x, "free_symbols") else None for x in c.op.p] for c in p.circuit]
+    return [cmd_fields(c, lv, False) for c in p.circuit], held, p.target, dict(p.run_options), dict(p.backend_options)
 
 
 def oracle_spec(ctx, sf, spec, via="text", check_state=True, check_code=True):
+    from strawberryfields.io import to_blackbird, to_xir
     rp = dict(kind="spec", spec=spec, via=via)
     tdm = bool(spec.get("tdm"))
     for ir in ("blackbird", "xir"):
         tag = ir + ("-tdm" if tdm else "")
         p = ioir.build(spec)
         before = snapshot(p)
+        try:
+            irobj = (to_blackbird(p) if ir == "blackbird" else to_xir(p))
+            # the IR must name the operations and the subsystem indices of the program, command by command
+            # (also for programs that cannot be loaded again: registers with holes after Del / New)
+            named = [(o["op"], list(o["modes"])) for o in irobj.operations] if ir == "blackbird" else \
+                [(s_.name, [int(w) for w in s_.wires]) for s_ in irobj.statements]
+            want = [(type(c.op).__name__, [r.ind for r in c.reg]) for c in p.circuit]
+            if named != want:
+                bad = next((i for i, (a, b) in enumerate(zip(named, want)) if a != b), len(want))
+                ctx.fail(f"{tag}:ir-names-or-modes", f"{ir} IR command {bad}: {named[bad:bad + 1]} for {want[bad:bad + 1]} ({spec['name']})", rp)
+        except Exception:  # noqa: BLE001
+            pass
+        if snapshot(p) != before:
+            ctx.fail(f"{tag}:writer-mutates-program", f"{ir} writer changed the program it converts: {spec['name']}", rp)
+            p = ioir.build(spec)
         stage, res = roundtrip(sf, p, ir, via)
         ctx.oracle_cases += 1
         if snapshot(p) != before:
-            ctx.fail(f"{tag}:writer-mutates-program", f"{ir} writer changed the program it converts: {spec['name']}", rp)
+            free = ":free-parameter-values" if any(ioir.par_kind(x) == "free" for o in spec["ops"] for x in o.get("pars", [])) else ""
+            ctx.fail(f"{tag}:load-changes-the-saved-program{free}",
+                     f"loading the {ir} text changed the program that was saved: {spec['name']}", rp)
             p = ioir.build(spec)
         if stage != "ok":
             exc = type(res).__name__
@@ -289,16 +316,224 @@ def oracle_spec(ctx, sf, spec, via="text", check_state=True, check_code=True):
         oracle_code(ctx, sf, spec, rp)
 
 
-def oracle_code(ctx, sf, spec, rp):
-    p = ioir.build(spec)
+def serialise(p, ir, **kw):
+    from strawberryfields.io import to_blackbird, to_xir
+    return (to_blackbird(p) if ir == "blackbird" else to_xir(p, **kw)).serialize()
+
+
+def oracle_history(ctx, sf, spec_a, spec_b, share):
+    """history independence and object sharing: write A, write B, write A again; load the same text twice;
+    A and B may share Operation instances (one op_cache); nothing that was written or loaded may change"""
+    rp = dict(kind="pair", a=spec_a, b=spec_b, share=share)
+    cache = {} if share else None
+    for ir in ("blackbird", "xir"):
+        tag = ir + ("-tdm" if spec_a.get("tdm") else "")
+        try:
+            pa, pb = ioir.build(spec_a, op_cache=cache), ioir.build(spec_b, op_cache=cache)
+            sa, sb = snapshot(pa), snapshot(pb)
+            try:
+                t1 = serialise(pa, ir); serialise(pb, ir); t2 = serialise(pa, ir)
+                tb = serialise(pb, ir)
+            except Exception as e:  # noqa: BLE001
+                # programs that cannot be written at all (refused inverse, 1-D arrays in Blackbird) are judged by oracle_spec
+                if not isinstance(roundtrip(sf, ioir.build(spec_a), ir, "text")[1], Exception) and \
+                        not isinstance(roundtrip(sf, ioir.build(spec_b), ir, "text")[1], Exception):
+                    raise
+                ctx.tally("history-skipped:unwritable")
+                continue
+            ctx.oracle_cases += 1
+            if t1 != t2:
+                ctx.fail(f"{tag}:text-depends-on-history", f"writing {spec_a['name']} before and after writing {spec_b['name']} gives different text", rp)
+            if snapshot(pa) != sa or snapshot(pb) != sb:
+                ctx.fail(f"{tag}:writer-mutates-program", f"{ir} writer changed a program (shared operations: {share})", rp)
+            fresh = serialise(ioir.build(spec_a), ir)
+            if fresh != t1:
+                ctx.fail(f"{tag}:text-depends-on-sharing", f"{spec_a['name']} with shared Operation instances is written differently from the same program with fresh ones", rp)
+            try:
+                q1 = sf.io.loads(t1, ir=ir)
+                f1 = snapshot(q1)
+                qb = sf.io.loads(tb, ir=ir)
+                q2 = sf.io.loads(t1, ir=ir)
+            except Exception:  # noqa: BLE001   (unloadable text is judged by oracle_spec)
+                continue
+            if q1 is q2 or any(c1.op is c2.op for c1, c2 in zip(q1.circuit, q2.circuit)):
+                ctx.fail(f"{tag}:load-returns-shared-objects", "loading the same text twice returns programs that share objects", rp)
+            if snapshot(q1) != f1:
+                ctx.fail(f"{tag}:load-changes-earlier-loaded-program", "loading further texts changed a program loaded before", rp)
+            if snapshot(q2) != f1:
+                ctx.fail(f"{tag}:load-depends-on-history", "loading the same text twice gives different programs", rp)
+            # chain: save -> load -> save -> load -> save: the text is a fixed point after the first load
+            t3 = serialise(q1, ir)
+            q3 = sf.io.loads(t3, ir=ir)
+            t4 = serialise(q3, ir)
+            if t3 != t4:
+                ctx.fail(f"{tag}:chain-not-stable", f"save/load chain keeps changing the text of {spec_a['name']}", rp)
+        except Exception as e:  # noqa: BLE001
+            ctx.fail(f"{tag}:history-oracle-raises:{type(e).__name__}", f"{type(e).__name__}: {str(e)[:120]} ({spec_a['name']}, {spec_b['name']})", rp)
+
+
+def oracle_compiled(ctx, sf, spec):
+    """the output of Program.compile (linked copy: shares registers and Operation objects with the source,
+    carries a target and daggered decomposition products) must round-trip like any program"""
+    rp = dict(kind="compiled", spec=spec)
+    try:
+        pc = ioir.build(spec).compile(compiler="gaussian")
+    except Exception:  # noqa: BLE001
+        ctx.tally("compile-skipped")
+        return
+    if not pc.circuit:
+        # an empty program has no representation (to_program documents the ValueError: the number of modes is unknown)
+        ctx.tally("compile-skipped:empty")
+        return
+    for ir in ("blackbird", "xir"):
+        ctx.oracle_cases += 1
+        try:
+            before = snapshot(pc)
+            stage, p2 = roundtrip(sf, pc, ir, "text")
+            if snapshot(pc) != before:
+                ctx.fail(f"{ir}:writer-mutates-program:compiled", f"writing the compiled {spec['name']} changed it", rp)
+            if stage != "ok":
+                if ir == "blackbird" and isinstance(p2, ValueError) and "inverse" in str(p2):
+                    ctx.tally("refused:blackbird-dagger")
+                    continue
+                ctx.fail(f"{ir}:{stage}-raises:{type(p2).__name__}:compiled", f"compiled {spec['name']}: {str(p2)[:100]}", rp)
+                continue
+            for sig, what in diff_programs(pc, p2, ir, dict(ops=[])):
+                ctx.fail(sig, what + f" [compiled {spec['name']}]", rp)
+            s1 = state_of(sf, ioir.build(spec).compile(compiler="gaussian"), "gaussian")
+            s2 = state_of(sf, p2, "gaussian")
+            why = states_differ(sf, s1, s2)
+            if why:
+                ctx.fail(f"{ir}:state-differs:compiled", f"compiled {spec['name']}: {why}", rp)
+        except Exception as e:  # noqa: BLE001
+            ctx.fail(f"{ir}:compiled-oracle-raises:{type(e).__name__}", f"{type(e).__name__}: {str(e)[:120]} ({spec['name']})", rp)
+
+
+def oracle_add_decl(ctx, sf, spec):
+    """to_xir(add_decl=True) / sf.save(..., add_decl=True): declarations must not change what is loaded"""
+    rp = dict(kind="add_decl", spec=spec)
+    if any(o["cls"] in ("Del", "New") for o in spec["ops"]):
+        return
+    ctx.oracle_cases += 1
+    try:
+        p = ioir.build(spec)
+        try:
+            p1 = sf.io.loads(serialise(p, "xir"), ir="xir")
+        except Exception:  # noqa: BLE001   (judged by oracle_spec)
+            return
+        p2 = sf.io.loads(serialise(p, "xir", add_decl=True), ir="xir")
+    except Exception as e:  # noqa: BLE001
+        ctx.fail(f"xir:add-decl-raises:{type(e).__name__}", f"{str(e)[:120]} ({spec['name']})", rp)
+        return
+    if snapshot(p1) != snapshot(p2):
+        ctx.fail("xir:add-decl-changes-program", f"to_xir(add_decl=True) reloads differently from to_xir() ({spec['name']})", rp)
+
+
+def oracle_gate_definition(ctx, sf, rng, idx):
+    """XIR scripts with gate definitions (get_expanded_statements): a defined gate applied to wires with
+    parameters must load as its body with parameters and wires substituted, in order; `inv` inside a body is
+    kept; `inv G` is the inverted body in reverse order; definitions may use earlier definitions (nesting)."""
+    n = rng.randint(2, 4)
+    body_classes = [("Sgate", 2, 1), ("Rgate", 1, 1), ("BSgate", 2, 2), ("Dgate", 2, 1)]
+    defs = {}      # name -> (k_p, k_w, body) with body entries (name, param idx list, wire idx list, inv)
+    lines = []
+
+    def expand(name, vals, wires, inv):
+        """independent statement of the meaning: list of (cls, params, wires, inv)"""
+        if name not in defs:
+            return [(name, list(vals), list(wires), inv)]
+        out = []
+        for bname, ps, ws, binv in defs[name][2]:
+            out += expand(bname, [vals[i] for i in ps], [wires[i] for i in ws], binv)
+        if inv:
+            out = [(c, p, w, not i) for c, p, w, i in reversed(out)]
+        return out
+
+    for d in range(rng.randint(1, 3)):
+        name = f"G{idx}x{d}"
+        k_w = rng.randint(1, min(n, 2))
+        k_p = rng.randint(2, 3)
+        body = []
+        for _ in range(rng.randint(1, 3)):
+            nested = [g for g, (gp, gw, _) in defs.items() if gw <= k_w and gp <= k_p]
+            if nested and rng.random() < 0.4:
+                g = rng.choice(nested)
+                gp, gw, _ = defs[g]
+                body.append((g, [rng.randrange(k_p) for _ in range(gp)], rng.sample(range(k_w), gw), rng.random() < 0.4))
+            else:
+                cls, npar, nw = rng.choice([b for b in body_classes if b[2] <= k_w])
+                body.append((cls, [rng.randrange(k_p) for _ in range(npar)], rng.sample(range(k_w), nw), rng.random() < 0.3))
+        defs[name] = (k_p, k_w, body)
+        lines.append(f"gate {name}({', '.join('a%d' % i for i in range(k_p))})[{', '.join('w%d' % i for i in range(k_w))}]:")
+        for bname, ps, ws, binv in body:
+            lines.append(f"    {'inv ' if binv else ''}{bname}({', '.join('a%d' % i for i in ps)}) | [{', '.join('w%d' % i for i in ws)}];")
+        lines.append("end;")
+    expect, apps = [], []
+    for _ in range(rng.randint(1, 3)):
+        g = rng.choice(list(defs))
+        k_p, k_w, _ = defs[g]
+        vals = [rng.randint(-6, 6) / 8 for _ in range(k_p)]
+        wires = rng.sample(range(n), k_w)
+        inv = rng.random() < 0.4
+        apps.append(f"{'inv ' if inv else ''}{g}({', '.join(repr(v) for v in vals)}) | [{', '.join(map(str, wires))}];")
+        expect += expand(g, vals, wires, inv)
+        if rng.random() < 0.5:
+            v, w, i2 = rng.randint(-6, 6) / 8, rng.randrange(n), rng.random() < 0.3
+            apps.append(f"{'inv ' if i2 else ''}Rgate({v!r}) | [{w}];")
+            expect.append(("Rgate", [v], [w], i2))
+    text = "\n".join(lines + [""] + apps) + "\n"
+    rp = dict(kind="gatedef", text=text, expect=expect)
+    check_gate_definition(ctx, sf, text, expect, rp)
+
+
+def check_gate_definition(ctx, sf, text, expect, rp):
+    ctx.oracle_cases += 1
+    try:
+        p = sf.io.loads(text, ir="xir")
+        got = [(type(c.op).__name__, [float(x) for x in c.op.p], [r.ind for r in c.reg], bool(c.op.dagger)) for c in p.circuit]
+    except Exception as e:  # noqa: BLE001
+        ctx.fail(f"xir:gate-definition-raises:{type(e).__name__}", f"{str(e)[:120]} on\n{text}", rp)
+        return
+    exp = [(c, [float(x) for x in ps], list(ws), bool(i)) for c, ps, ws, i in expect]
+    if got != exp:
+        ctx.fail("xir:gate-definition-expansion", f"expanded statements {got} != {exp} for\n{text}", rp)
+
+
+def oracle_code_engine(ctx, sf, spec, rng):
+    """generate_code(prog, eng): the engine line must rebuild an engine with the same backend and cutoff"""
+    rp = dict(kind="code_engine", spec=spec)
+    if code_group(spec, ioir.build(spec)) is not None:
+        return
+    ctx.oracle_cases += 1
+    try:
+        backend, opts = rng.choice([("gaussian", {}), ("fock", {"cutoff_dim": rng.randint(3, 7)}), ("bosonic", {})])
+        eng = sf.Engine(backend, backend_options=opts)
+        code = sf.io.generate_code(ioir.build(spec), eng)
+        if "results = eng.run(prog)" not in code:
+            ctx.fail("gencode:engine:no-run-line", code[-80:], rp)
+        ns = {"np": np}
+        exec(code.replace("results = eng.run(prog)", ""), ns)  # noqa: S102
+        e2 = ns["eng"]
+        if e2.backend_name != backend or e2.backend_options.get("cutoff_dim") != opts.get("cutoff_dim"):
+            ctx.fail("gencode:engine:backend-or-cutoff", f"{backend} {opts} became {e2.backend_name} {e2.backend_options}", rp)
+    except Exception as e:  # noqa: BLE001
+        ctx.fail(f"gencode:engine:raises:{type(e).__name__}", f"{str(e)[:120]} ({spec['name']})", rp)
+
+
+def code_group(spec, p):
+    """generate_code is documented for numeric parameters; everything that goes wrong on a program with
+    array / string / symbolic parameters is one input class, likewise programs that delete / create modes"""
     import numbers
     lv = [str(v) for v in getattr(p, "loop_vars", [])]
     plain = all((isinstance(x, numbers.Number) and not isinstance(x, bool)) or str(x) in lv for c in p.circuit for x in c.op.p)
-    # generate_code is documented for numeric parameters; everything that goes wrong on a program with
-    # array / string / symbolic parameters is one input class, likewise Fouriergate (constructor takes no argument)
-    group = None if plain else "gencode:non-numeric-param"
-    if any(o["cls"] == "Fouriergate" for o in spec["ops"]):
-        group = "gencode:Fouriergate"
+    if any(o["cls"] in ("Del", "New") for o in spec["ops"]):
+        return "gencode:Del-New"
+    return None if plain else "gencode:non-numeric-param"
+
+
+def oracle_code(ctx, sf, spec, rp):
+    p = ioir.build(spec)
+    group = code_group(spec, p)
     ctx.oracle_cases += 1
     try:
         code = sf.io.generate_code(p)
@@ -330,36 +565,45 @@ def oracle_pi(ctx, sf, value):
 def expressible(spec, ir):
     """the hypotheses of the round-trip theorems, on a spec"""
     for o in spec["ops"]:
-        meas = "Measure" in o["cls"]
+        if o["cls"] in ("Del", "New"):
+            return False
         for j, x in enumerate(o.get("pars", [])):
             k = ioir.par_kind(x)
-            ok = k in ("numeric", "array") or (k == "loop" and not (o.get("dagger") and j == 0 and ir == "blackbird")) \
-                or (k == "measured" and ir == "blackbird" and not meas)   # (measured-fn: Blackbird cannot parse functions)
+            ok = k in ("numeric", "array", "loop", "loopexpr", "free", "measured") or (k == "measured-fn" and ir == "xir") \
+                or (k == "measured-negfn" and False) \
+                or (k == "array1d" and ir == "xir")
             if not ok:
                 return False
-        if o.get("kw") or o["cls"] in ("Fouriergate", "Catstate"):
+        if o.get("kw") or o["cls"] in ("Catstate", "BipartiteGraphEmbed"):
             return False
         if o.get("dagger") and ir == "blackbird" and o["cls"] not in ioir.NEG_INVERTS:
             return False
     if ir == "blackbird" and spec.get("target") is None and (spec.get("shots") is not None or spec.get("cutoff") is not None):
         return False
+    if spec.get("run_extra") or spec.get("backend_extra"):
+        return False
+    if ir == "blackbird" and spec.get("tdm") and len(spec["tdm"]["N"]) > 1:
+        return False
     return True
 
 
-def corr_spec(ctx, sf, spec, reqs, pending):
-    """queue model requests for one spec; real results are computed now"""
+def corr_spec(ctx, sf, spec, reqs, pending, make=None, text=True):
+    """queue model requests for one spec; real results are computed now.  `make` builds the program
+    (default: from the spec; the compiled variant passes the compiler's output)"""
     import blackbird
     import xir
     from strawberryfields.io import to_blackbird, to_xir, to_program
-    case = dict(spec=spec)
+    make = make or (lambda: ioir.build(spec))
+    case = dict(spec=spec) if text else dict(spec=spec, compiled=True)
+    kloop = len(spec["tdm"]["params"]) if spec.get("tdm") else 0
     try:
-        pj = ioir.prog_json(ioir.build(spec))
+        pj = ioir.prog_json(make())
     except ioir.Unrep:
         ctx.tally("corr-skipped:unrepresentable")
         return
     # ---- Blackbird writer
     try:
-        bbj = ioir.bb_json(to_blackbird(ioir.build(spec)))
+        bbj = ioir.bb_json(to_blackbird(make()))
         real = {"ok": bbj}
     except ioir.Unrep:
         ctx.tally("corr-skipped:unrepresentable")
@@ -373,47 +617,155 @@ def corr_spec(ctx, sf, spec, reqs, pending):
     if bbj is not None and readers:
         # ---- reader on the IR object
         try:
-            real = {"ok": ioir.prog_json(to_program(to_blackbird(ioir.build(spec))))}
+            real = {"ok": ioir.prog_json(to_program(to_blackbird(make())))}
         except ioir.Unrep:
             real = None
         except Exception as e:  # noqa: BLE001
             real = ioir.err_json(e)
         if real is not None:
-            reqs.append(dict(op="io.fromBB", bb=bbj)); pending.append(("toProgramBB vs to_program(blackbird)", case, real))
+            reqs.append(dict(op="io.fromBB", bb=bbj, parse=ioir.parse_table(bbj, True, kloop)))
+            pending.append(("toProgramBB vs to_program(blackbird)", case, real))
         # ---- text layer (hypothesis of the theorems)
-        if expressible(spec, "blackbird"):
+        if text and expressible(spec, "blackbird"):
             try:
-                bb2 = blackbird.loads(to_blackbird(ioir.build(spec)).serialize())
+                bb2 = blackbird.loads(to_blackbird(make()).serialize())
                 real2 = ioir.bb_json(bb2)
                 reqs.append(dict(op="io.reparseBB", bb=bbj)); pending.append(("reparseBB vs blackbird text layer", case, real2))
                 real3 = {"ok": ioir.prog_json(to_program(bb2))}
-                reqs.append(dict(op="io.fromBB", bb=real2)); pending.append(("toProgramBB vs to_program(blackbird text)", case, real3))
+                reqs.append(dict(op="io.fromBB", bb=real2, parse=ioir.parse_table(real2, True, kloop)))
+                pending.append(("toProgramBB vs to_program(blackbird text)", case, real3))
             except Exception as e:  # noqa: BLE001
                 ctx.disagree("blackbird text layer raises on an expressible program", case, "identity", repr(e)[:200])
     # ---- XIR writer
     try:
-        xj = ioir.xir_json(to_xir(ioir.build(spec)))
+        xj = ioir.xir_json(to_xir(make()))
     except ioir.Unrep:
         ctx.tally("corr-skipped:unrepresentable")
         return
     reqs.append(dict(op="io.toXIR", prog=pj)); pending.append(("toXIR vs to_xir", case, xj))
     try:
-        real = {"ok": ioir.prog_json(to_program(to_xir(ioir.build(spec))))}
+        real = {"ok": ioir.prog_json(to_program(to_xir(make())))}
     except ioir.Unrep:
         real = None
     except Exception as e:  # noqa: BLE001
         real = ioir.err_json(e)
     if real is not None and readers:
-        reqs.append(dict(op="io.fromXIR", xir=xj)); pending.append(("toProgramXIR vs to_program(xir)", case, real))
-    if expressible(spec, "xir"):
+        reqs.append(dict(op="io.fromXIR", xir=xj, parse=ioir.parse_table(xj, False, kloop)))
+        pending.append(("toProgramXIR vs to_program(xir)", case, real))
+    if text and expressible(spec, "xir"):
         try:
-            x2 = xir.parse_script(to_xir(ioir.build(spec)).serialize())
+            x2 = xir.parse_script(to_xir(make()).serialize())
             xj2 = ioir.xir_json(x2)
             ctx.corr_cases += 1
-            if xj2 != xj:
+            nospace = lambda j: json.loads(json.dumps(j), object_hook=lambda d: {"str": d["str"].replace(" ", "")} if set(d) == {"str"} else d)
+            if nospace(xj2) != nospace(xj):     # the XIR printer re-spaces expression strings
                 ctx.disagree("XIR text layer is not the identity on an expressible program", case, xj, xj2)
+            real3 = {"ok": ioir.prog_json(to_program(x2))}
+            reqs.append(dict(op="io.fromXIR", xir=xj2, parse=ioir.parse_table(xj2, False, kloop)))
+            pending.append(("toProgramXIR vs to_program(xir text)", case, real3))
         except Exception as e:  # noqa: BLE001
             ctx.disagree("XIR text layer raises on an expressible program", case, "identity", repr(e)[:200])
+
+
+def corr_code(ctx, sf, spec, reqs, pending):
+    """generate_code: the model's printed AST against the parsed real text, and the meaning of the printed
+    code (model `evalCode`) against what executing the real text builds"""
+    p = ioir.build(spec)
+    if code_group(spec, p) is not None:
+        return
+    pj = ioir.prog_json(p)
+    code = sf.io.generate_code(ioir.build(spec))
+    real = ioir.code_json(code)
+    if real["tdmN"] is None:
+        pj["n"] = p.num_subsystems
+    else:
+        real["n"] = pj["n"]          # TDM code states N only
+    reqs.append(dict(op="io.genCode", prog=pj)); pending.append(("genCode vs generate_code", dict(spec=spec), real))
+    ns = {"np": np}
+    exec(code, ns)  # noqa: S102
+    built = ioir.prog_json(ns["prog"])
+    built.update(name="", target=None, shots=None, cutoff=None, extra=[])
+    reqs.append(dict(op="io.evalCode", prog=pj)); pending.append(("evalCode(genCode) vs exec(generate_code)", dict(spec=spec), {"ok": built}))
+
+
+def close_json(a, b):
+    """equal up to the last bits of floats (the model evaluates c*np.pi/d exactly, Python in float64)"""
+    if isinstance(a, dict) and isinstance(b, dict) and set(a) == set(b) == {"f"}:
+        x, y = a["f"][0] / a["f"][1], b["f"][0] / b["f"][1]
+        return abs(x - y) <= 1e-14 * max(1.0, abs(x))
+    if isinstance(a, dict) and isinstance(b, dict):
+        return set(a) == set(b) and all(close_json(a[k], b[k]) for k in a)
+    if isinstance(a, list) and isinstance(b, list):
+        return len(a) == len(b) and all(close_json(x, y) for x, y in zip(a, b))
+    return a == b
+
+
+def corr_num(ctx, sf, rng):
+    """_factor_out_pi on arbitrary numbers: exact multiples, numbers just below / above a multiple (inside and
+    outside the isclose window, which is asymmetric), ints, random floats"""
+    from strawberryfields.io.utils import _factor_out_pi
+    if not ctx.proof_ok:
+        return
+    f = float(np.pi / 12)
+    xs = []
+    for _ in range(ctx.n(400, 4000)):
+        m = rng.randint(-60, 60)
+        r = rng.random()
+        if r < 0.25:
+            xs.append(m * f)
+        elif r < 0.6:
+            xs.append(m * f + rng.choice([1, -1]) * rng.choice([1e-12, 5e-9, 9e-9, 2e-8, 1e-6, 2.5e-6, 2.7e-6, 1e-5, 1e-3]))
+        elif r < 0.7:
+            xs.append(rng.randint(-9, 9))
+        elif r < 0.8:
+            xs.append(rng.randint(-16, 16) / 8)
+        else:
+            xs.append(rng.uniform(-20, 20))
+    res = ctx.lean([dict(op="io.genNum", x=ioir.sc(x)) for x in xs])
+    for x, model in zip(xs, res):
+        ctx.corr_cases += 1
+        impl = ioir.pyarg_json(_factor_out_pi([x]))
+        ctx.tally("genNum:" + next(iter(impl)))
+        if impl != model:
+            ctx.disagree("genNum vs _factor_out_pi", dict(x=x), model, impl)
+
+
+def corr_names(ctx, sf, rng):
+    """the index parsers on symbol names (model measuredIndex / ptypeIndex / qName / pName) against the real
+    par_convert, tdm.is_ptype + int(name[1:]), MeasuredParameter names and TDM loop-variable names"""
+    import sympy
+    import strawberryfields.parameters as sfpar
+    from strawberryfields.tdm import is_ptype
+    if not ctx.proof_ok:
+        return
+    idxs = list(range(0, 25)) + [rng.randint(25, 400) for _ in range(20)] + [99, 100, 101, 999, 1000]
+    names = [f"q{i}" for i in idxs] + [f"p{i}" for i in idxs] + \
+        ["q", "p", "q1x", "p1x", "qx1", "px", "q_1", "p_1", "quality", "pump", "Q1", "P1", "q01", "p007", "x", "q1 ", "q-1", "alpha"]
+    res = ctx.lean([dict(op="io.names", names=names, indices=idxs)])[0]
+    big = sf.Program(max(idxs) + 1)
+    for name, (mi, pi) in zip(names, res["parsed"]):
+        ctx.corr_cases += 1
+        # par_convert on the bare symbol: a measured parameter of which subsystem?
+        try:
+            out = sfpar.par_convert([sympy.Symbol(name)], big)[0]
+            real_m = out.regref.ind if isinstance(out, sfpar.MeasuredParameter) else None
+        except Exception as e:  # noqa: BLE001
+            real_m = "raises " + type(e).__name__
+        real_p = int(name[1:]) if is_ptype(name) else None
+        if mi != real_m:
+            ctx.disagree("measuredIndex vs par_convert", dict(name=name), mi, real_m)
+        if pi != real_p:
+            ctx.disagree("ptypeIndex vs is_ptype/int", dict(name=name), pi, real_p)
+    tp = sf.TDMProgram(N=2)
+    with tp.context(*[[0.0, 1.0] for _ in range(30)]) as (p, q):
+        pass
+    for i, (qn, pn) in zip(idxs, res["printed"]):
+        ctx.corr_cases += 1
+        real_q = sfpar.MeasuredParameter(big.register[i]).name
+        if qn != real_q:
+            ctx.disagree("qName vs MeasuredParameter.name", dict(i=i), qn, real_q)
+        if i < 30 and pn != p[i].name:
+            ctx.disagree("pName vs TDM loop variable name", dict(i=i), pn, p[i].name)
 
 
 def _strip_unmodelled(model, impl):
@@ -428,7 +780,7 @@ def compare(ctx, reqs, pending):
             ctx.tally("corr-skipped:unmodelled-kwarg")
             continue
         ctx.corr_cases += 1
-        if model != impl:
+        if model != impl and not (pair.startswith("evalCode") and close_json(model, impl)):
             ctx.disagree(pair, case, model, impl)
 
 
@@ -456,10 +808,16 @@ PLANS = [  # (features, relative weight)
     (("kwargs", "array"), 1),
     (("fourier", "dagger", "mz"), 1),
     (("array1d", "string"), 1),
+    (("dagger", "options", "extra_opts"), 1),
+    (("repeat", "share", "options"), 2),
+    (("delnew", "dagger"), 1),
+    (("wide", "measured", "dagger", "meas"), 2),
+    (("wide", "free", "dagger", "options"), 1),
 ]
 TDM_PLANS = [
     (("dagger", "options", "select"), 3),
     (("loopexpr", "nlist", "dagger"), 1),
+    (("wide", "loopexpr", "dagger", "select"), 1),
 ]
 
 
@@ -481,37 +839,78 @@ def nontrivial(spec):
     return len(spec["ops"]) >= 2 and bool(feats)
 
 
+def guarded(ctx, what, spec, fn, *a, **kw):
+    """an exception escaping an oracle / correspondence step becomes a failing input, not a harness crash"""
+    try:
+        fn(*a, **kw)
+    except ioir.Unrep:
+        ctx.tally("skipped:unrepresentable")
+    except Exception as e:  # noqa: BLE001
+        import traceback
+        ctx.fail(f"{what}-raises:{type(e).__name__}", f"{what}: {type(e).__name__}: {str(e)[:150]} ({spec.get('name')}) "
+                 + traceback.format_exc(limit=-2)[-300:], dict(kind="spec", spec=spec, via="text"))
+
+
+def one_spec(ctx, sf, spec, kind, idx, reqs, pending, prev, via=None):
+    ctx.count(kind, spec, nontrivial(spec), sample=spec)
+    guarded(ctx, "oracle", spec, oracle_spec, ctx, sf, spec, via=via or ("file" if idx % 5 == 0 else "text"))
+    guarded(ctx, "correspondence", spec, corr_spec, ctx, sf, spec, reqs, pending)
+    guarded(ctx, "correspondence(code)", spec, corr_code, ctx, sf, spec, reqs, pending)
+    if prev is not None and idx % 3 == 0 and bool(prev.get("tdm")) == bool(spec.get("tdm")):
+        oracle_history(ctx, sf, spec, prev, share=(idx % 2 == 0))
+    if idx % 2 == 0 and runnable_backend(spec) == "gaussian" and not any(o["cls"] in ("Del", "New") for o in spec["ops"]):
+        oracle_compiled(ctx, sf, spec)
+        try:
+            ioir.build(spec).compile(compiler="gaussian")
+            guarded(ctx, "correspondence", spec, corr_spec, ctx, sf, spec, reqs, pending,
+                    make=lambda: ioir.build(spec).compile(compiler="gaussian"), text=False)
+        except Exception:  # noqa: BLE001
+            pass
+    if idx % 4 == 1:
+        oracle_add_decl(ctx, sf, spec)
+    if idx % 6 == 2:
+        oracle_code_engine(ctx, sf, spec, ctx.rng)
+
+
 def run(ctx, sf):
     rng = ctx.rng
     reqs, pending = [], []
     corr_pi(ctx, sf)
+    corr_num(ctx, sf, rng)
+    guarded(ctx, "correspondence(names)", dict(name="names"), corr_names, ctx, sf, rng)
     for m in list(range(-150, 151)) + [12 * k for k in (13, 17, 25, 100, -33)]:
         for val in (m * np.pi / 12, np.pi * m / 12, m * (np.pi / 12)):   # the three roundings of m*pi/12
             oracle_pi(ctx, sf, float(val))
     for _ in range(ctx.n(200, 2000)):
         oracle_pi(ctx, sf, rng.choice([rng.uniform(-20, 20), rng.randint(-9, 9) / 4, rng.randint(-40, 40) * float(np.pi) / rng.choice([1, 2, 3, 4, 6, 12, 5, 7])]))
+    for i in range(ctx.n(30, 300)):
+        oracle_gate_definition(ctx, sf, rng, i)
+    prev = None
+    idx = 0
     for spec in corpus_specs():
-        ctx.count("corpus", spec, nontrivial(spec))
-        oracle_spec(ctx, sf, spec, via="text")
-        oracle_spec(ctx, sf, spec, via="file", check_state=False, check_code=False)
-        corr_spec(ctx, sf, spec, reqs, pending)
+        one_spec(ctx, sf, spec, "corpus", idx, reqs, pending, prev, via="text"); idx += 1
+        guarded(ctx, "oracle", spec, oracle_spec, ctx, sf, spec, via="file", check_state=False, check_code=False)
+        prev = spec
     total = ctx.n(260, 8000)
     wsum = sum(w for _, w in PLANS)
-    idx = 0
     for feats, w in PLANS:
         for _ in range(max(4, total * w // wsum)):
             spec = ioir.rand_spec(rng, idx, set(feats)); idx += 1
-            ctx.count("prog:" + "+".join(feats), spec, nontrivial(spec), sample=spec)
-            oracle_spec(ctx, sf, spec, via="file" if idx % 5 == 0 else "text")
-            corr_spec(ctx, sf, spec, reqs, pending)
+            one_spec(ctx, sf, spec, "prog:" + "+".join(feats), idx, reqs, pending, prev)
+            prev = spec
+    for _ in range(ctx.n(40, 500)):
+        spec = ioir.rand_history_spec(rng, idx); idx += 1
+        ctx.count("history:" + "+".join(sorted(spec["history"])), spec, True, sample=spec)
+        guarded(ctx, "oracle", spec, oracle_spec, ctx, sf, spec, via="text", check_state=False, check_code=False)
+        guarded(ctx, "correspondence", spec, corr_spec, ctx, sf, spec, reqs, pending)
     total_t = ctx.n(90, 2500)
     wsum = sum(w for _, w in TDM_PLANS)
+    prev = None
     for feats, w in TDM_PLANS:
         for _ in range(max(4, total_t * w // wsum)):
             spec = ioir.rand_tdm_spec(rng, idx, set(feats)); idx += 1
-            ctx.count("tdm:" + "+".join(feats), spec, nontrivial(spec), sample=spec)
-            oracle_spec(ctx, sf, spec, via="file" if idx % 5 == 0 else "text")
-            corr_spec(ctx, sf, spec, reqs, pending)
+            one_spec(ctx, sf, spec, "tdm:" + "+".join(feats), idx, reqs, pending, prev)
+            prev = spec
         if len(reqs) > 3000:
             compare(ctx, reqs, pending); reqs, pending = [], []
     compare(ctx, reqs, pending)
@@ -525,11 +924,22 @@ def search(ctx, sf):
 
 def replay(ctx, rp):
     import strawberryfields as sf
+    from lib import core
     n0 = len(ctx.failures)
-    if rp.get("kind") == "pi":
+    kind = rp.get("kind")
+    if kind == "pi":
         oracle_pi(ctx, sf, rp["value"])
+    elif kind == "pair":
+        oracle_history(ctx, sf, rp["a"], rp["b"], rp.get("share", False))
+    elif kind == "compiled":
+        oracle_compiled(ctx, sf, rp["spec"])
+    elif kind == "add_decl":
+        oracle_add_decl(ctx, sf, rp["spec"])
+    elif kind == "gatedef":
+        check_gate_definition(ctx, sf, rp["text"], [tuple(e) for e in rp["expect"]], rp)
+    elif kind == "code_engine":
+        oracle_code_engine(ctx, sf, rp["spec"], ctx.rng)
     else:
         oracle_spec(ctx, sf, rp["spec"], via=rp.get("via", "text"))
-    from lib import core
     known = core.Known()
     return any(not known.match(ctx.pid, f["sig"]) for f in ctx.failures[n0:])
